@@ -58,6 +58,7 @@ class Opts:
         self.kdurs = [1, 2, 3, 4, 7, 12]
         self.backward_ann = False  # main thread carries '## backward ##' annotations (not nested in each other)
         self.force_second_thread = False
+        self.body_fn = None  # optional (draw, opts, streams) -> items: replaces the top-level body of the main thread
         self.annotations = True
         self.template = False
         self.min_kernels = 0
@@ -142,6 +143,11 @@ def body(draw, o: Opts, streams: List[int], depth: int) -> List[Dict[str, Any]]:
 @st.composite
 def thread_program(draw, o: Opts, streams: List[int], with_steps: bool, nsteps: int, first_step: int) -> List[Dict[str, Any]]:
     """Top-level item list of one host thread."""
+    def top_body() -> List[Dict[str, Any]]:
+        if o.body_fn is not None:
+            return o.body_fn(draw, o, streams)
+        return draw(body(o, streams, 0))
+
     def with_backward(kids: List[Dict[str, Any]]) -> List[Dict[str, Any]]:
         if not o.backward_ann or not pick(draw, [True, True, False]):
             return kids
@@ -152,17 +158,17 @@ def thread_program(draw, o: Opts, streams: List[int], with_steps: bool, nsteps: 
         return kids[:pos] + [ann] + kids[pos:]
 
     if not with_steps or nsteps == 0:
-        return with_backward(draw(body(o, streams, 0)))
+        return with_backward(top_body())
     items: List[Dict[str, Any]] = []
     if pick(draw, [True, False]):
-        items += draw(body(o, streams, 0))  # work before the first step
+        items += top_body()  # work before the first step
     for k in range(nsteps):
-        kids = with_backward(draw(body(o, streams, 0)))
+        kids = with_backward(top_body())
         items.append({"t": "op", "name": vocab.profiler_step(first_step + k), "cat": "user_annotation",
                       "pre": pick(draw, [0, 0, 1, 3]), "post": pick(draw, SMALL),
                       "min": pick(draw, [30, 10, 1, 1]) if o.autograd else 1, "kids": kids})
     if pick(draw, [True, False]):
-        items += draw(body(o, streams, 0))  # work after the last step
+        items += top_body()  # work after the last step
     return items
 
 
@@ -183,7 +189,8 @@ def rank_program(draw, o: Opts, rank: int, nsteps: int, first_step: int) -> Dict
         prog["lead"] = {"ts": pick(draw, [40, 25, 12, 0, 70]), "dur": pick(draw, [1, 3, 0])}
     prog["threads"].append({"tid_off": 0, "start": 0, "items": main})
     if o.second_thread and (o.force_second_thread or pick(draw, [False, False, True])):
-        o2 = Opts(**{**o.__dict__, "w_sync": 0, "device_sync": False, "w_launch": o.w_launch if not o.device_sync else 0})
+        o2 = Opts(**{**o.__dict__, "w_sync": 0, "device_sync": False, "w_launch": o.w_launch if not o.device_sync else 0,
+                     "body_fn": None})
         streams2 = STREAMS[ns:ns + 1] or [STREAMS[-1] + 4]
         names = vocab.AUTOGRAD_OPS if o.autograd else None
         items2 = draw(body(o2, streams2, 0)) if names is None else [draw(op_node(o2, streams2, 0, names)) for _ in
@@ -359,7 +366,8 @@ def merge_order(draw, sim: Sim, extras: bool = True) -> List[Dict[str, Any]]:
 
 
 @st.composite
-def sim_case(draw, o: Optional[Opts] = None, max_ranks: int = 2, same_steps: bool = True) -> Dict[str, Any]:
+def sim_case(draw, o: Optional[Opts] = None, max_ranks: int = 2, same_steps: bool = True,
+             extras_trace_span: bool = False) -> Dict[str, Any]:
     o = o or Opts()
     nranks = pick(draw, [1, 1, 1, 2, 2, 3][: 3 + max(0, max_ranks - 1) * 2][: 6]) if max_ranks > 1 else 1
     nranks = min(nranks, max_ranks)
@@ -371,5 +379,13 @@ def sim_case(draw, o: Optional[Opts] = None, max_ranks: int = 2, same_steps: boo
         prog = draw(rank_program(o, r, nsteps, first_step))
         sim = simulate_rank(prog, epoch)
         events = draw(merge_order(sim))
+        if extras_trace_span:  # exactly one profiler span entry, as Kineto writes it
+            spans = [e for e in events if e.get("cat") == "Trace"]
+            for e in spans[1:]:
+                events.remove(e)
+            if not spans:
+                span = dict(EXTRA_ENTRIES[-1])
+                span["ts"] = epoch
+                events.append(span)
         ranks.append({"rank": r, "events": events})
     return {"ranks": ranks, "fmt": pick(draw, ["json", "gz"]), "mp": pick(draw, [False] * 5 + [True])}
